@@ -135,6 +135,33 @@ def eval_extra(args):
     return dict(name=name, ver=ver, doc=doc, verdicts=v, problem='entry points disagree on the verdict') if len(set(v.values())) > 1 else None
 
 
+def eval_given_schema(workdir):
+    """the package-level functions called with a schema INSTANCE use that instance - whatever namespace the root of the document is in and whatever location hints it carries"""
+    import xmlschema
+    from xmlschema.validators.exceptions import XMLSchemaValidationError
+    d = os.path.join(workdir, 'given'); os.makedirs(d, exist_ok=True)
+    XS_ = 'xmlns:xs="http://www.w3.org/2001/XMLSchema"'
+    open(os.path.join(d, 'a.xsd'), 'w').write(f'<xs:schema {XS_} targetNamespace="urn:a" xmlns:a="urn:a" elementFormDefault="qualified"><xs:element name="doc"><xs:complexType><xs:sequence>'
+                                              f'<xs:element ref="a:head" maxOccurs="unbounded"/></xs:sequence></xs:complexType></xs:element><xs:element name="head" type="xs:string"/></xs:schema>')
+    open(os.path.join(d, 'm.xsd'), 'w').write(f'<xs:schema {XS_} targetNamespace="urn:m" xmlns:m="urn:m" xmlns:a="urn:a" elementFormDefault="qualified"><xs:import namespace="urn:a" schemaLocation="a.xsd"/>'
+                                              f'<xs:element name="special" substitutionGroup="a:head"><xs:simpleType><xs:restriction base="xs:string"><xs:maxLength value="3"/></xs:restriction></xs:simpleType></xs:element></xs:schema>')
+    bad = []; n = 0
+    for ver in ('1.0', '1.1'):
+        s = _cls(ver)(os.path.join(d, 'm.xsd'))
+        for hint in ('', f' xmlns:xsi="http://www.w3.org/2001/XMLSchema-instance" xsi:schemaLocation="urn:a {os.path.join(d, "a.xsd")}"'):
+            for body, label in (('<a:head>one</a:head><m:special>two</m:special>', 'valid'), ('<a:head>one</a:head><m:special>toolong</m:special>', 'invalid')):
+                doc = f'<a:doc xmlns:a="urn:a" xmlns:m="urn:m"{hint}>{body}</a:doc>'
+                p = os.path.join(d, 'doc.xml'); open(p, 'w').write(doc)
+                for src in (doc, p):
+                    n += 1
+                    want = (s.is_valid(src), [e.reason for e in s.iter_errors(src)], repr(s.decode(src, validation='lax')[0]))
+                    got = (xmlschema.is_valid(src, s), [e.reason for e in xmlschema.iter_errors(src, s)], repr(xmlschema.to_dict(src, s, validation='lax')[0]))
+                    try: xmlschema.validate(src, s); v = True
+                    except XMLSchemaValidationError: v = False
+                    if got != want or v != want[0]: bad.append(dict(ver=ver, hint=bool(hint), label=label, source='text' if src is doc else 'path', observed=dict(package=str(got)[:200], validate=v, method=str(want)[:200])))
+    return n, bad
+
+
 def run(tier, seed, open_findings):
     rng = random.Random(seed)
     n = 1200 if tier == 'thorough' else 40
@@ -165,6 +192,9 @@ def run(tier, seed, open_findings):
         fails = [dict(case=dict(doc=r['doc'], ver=r['ver']), observed=dict(source=r['source'], problem=r['problem'], errors=r.get('lax')), required='all entry points, modes and source kinds agree') for r in res if r]
         out = [result('C04.entry_points_agree', f'{len(docs)} generated documents (0-2 faults) x 2 classes x 12 source kinds (lxml trees included) x 9 entry points', len(jobs) * 12, fails,
                       samples=[dict(doc=docs[1][:200])], distinct=len(set(docs)) * 2)]
+        gn, gbad = eval_given_schema(workdir)
+        out.append(result('C04.package_functions_use_the_given_schema', 'a schema instance that imports urn:a and adds a substitution member; documents rooted in urn:a with and without an xsi:schemaLocation hint x text / path x 2 classes: the package-level functions agree with the methods',
+                          gn, [dict(case=dict(given=True, **{k: b[k] for k in ('ver', 'hint', 'label', 'source')}), observed=b['observed'], required='the package-level function gives what the method of the given schema gives') for b in gbad], exhaustive=True))
         ejobs = [(nm_, ver, d) for nm_, (_, ds) in EXTRA.items() for d in ds for ver in ('1.0', '1.1')]
         eres = [eval_extra(j) for j in ejobs]
         ef = []; ek = {}
@@ -187,6 +217,12 @@ def run(tier, seed, open_findings):
 
 
 def replay(check_name, case):
+    if case.get('given'):
+        wd = tempfile.mkdtemp(prefix='verif_c04_')
+        try:
+            n, bad = eval_given_schema(wd); mine = [b for b in bad if all(b[k] == case[k] for k in ('ver', 'hint', 'label', 'source'))]
+            return dict(ok=not mine, observed=mine[:1], required='package-level function = method')
+        finally: shutil.rmtree(wd, ignore_errors=True)
     if 'extra' in case:
         r = eval_extra((case['extra'], case['ver'], case['doc'])); return dict(ok=r is None, observed=r, required='one verdict on every entry point')
     workdir = tempfile.mkdtemp(prefix='verif_c04_')
